@@ -4,3 +4,5 @@ import Sio.Props.C04sched
 #print axioms Sio.C04sched.async_disconnect_once
 #print axioms Sio.C04sched.disconnect_once_sched
 #print axioms Sio.C04sched.bystander_frame
+#print axioms Sio.C04sched.refused_never_notified_after
+#print axioms Sio.C04sched.refused_before_gate
